@@ -344,7 +344,8 @@ static Prog make_program(vh::Rng& rng, std::string& descr, bool io, int force_ki
     if (dmak) irqs.push_back(15u);
     // one program in five is about several sources raised by ONE trigger write: sources 3, 9 and 14 are vectored, each with
     // its own context-switch flag (mostly set on the lower ones, mostly clear on the highest), the trigger names two or three
-    bool multi = rng.chance(1, 5);
+    // PARKED (default off, SYSREC_MULTI=1 switches it on): see DESIGN.md, open lead of 2026-09-30
+    bool multi = std::getenv("SYSREC_MULTI") != nullptr && rng.chance(1, 5);
     for (unsigned irq : irqs) {
         // (c == 5: the source is routed nowhere -- its request bit rises, the core sleeps on)
         unsigned c = flavour == 2 ? (rng.chance(1, 5) ? 5 : rng.chance(1, 2) ? 3 : rng.below(3)) : flavour == 3 ? (rng.chance(1, 2) ? 5 : rng.below(5)) : rng.below(6);
